@@ -21,7 +21,7 @@ RULE = ("part A: class in {LRUCache, HybridCache, SimpleCache, DiskCache(+-LRU f
         "shared on/off (FakeManager) x allow_cloudpickle on/off x history of <=12 ops over 4 keys (put with unique value and "
         "tape-chosen duration incl. 0 and ties, get, in, len, clear, re-put, DiskCache reopen with possibly smaller "
         "max_size and tape-chosen file ctimes incl. ties and backward steps), stepped against an executable policy model. "
-        "part B: 2-3 simulated processes with pickled copies of a shared LRU/Hybrid cache, 2-4 ops each, pre-empted at "
+        "part B: 2-3 simulated processes with pickled copies of a shared LRU/Hybrid cache or a DiskCache (shared LRU front) on one directory, 2-4 ops each, pre-empted at "
         "every manager RPC. distinct_nontrivial = distinct (configuration, history, RPC-order digest) in which an "
         "eviction happened (A) or two clients' operations overlapped (B)")
 COMPONENTS = {
